@@ -138,6 +138,9 @@ def rand_cfg(rng: random.Random, gen: ModelGen, ent, multiclient: Optional[bool]
                                          info['injected'])
     assert verdict == refcfg.ACCEPT, (verdict, reason, provides, requires, info)
     base = rng.choice(['Model', 'M' + str(rng.randrange(100)), ident(rng, 'camel')])
+    if rng.random() < 0.12:
+        # a model file is named by its author, not by a C++ programmer
+        base = rng.choice(['my-model', 'My.Model', '2nd', 'a b', 'päck'])
     enc = {
         'encapsulee': info['fqn'],
         'encapsulee_form': rng.choice(['ids', 'ids', 'ids', 'dot', 'colons', 'list']),
